@@ -40,7 +40,7 @@ Print Assumptions index_without_frames.
 Theorem single_file_roundtrip : forall p st q,
   submatches R_splitPattern p 4 = None ->
   new_fileseq p st = Ok q ->
-  (forall name frame ext, submatches R_singleFramePattern p 3 = Some [name; frame; ext] ->
+  (forall name frame ext, submatches R_singleFramePattern (snd (path_split p)) 3 = Some [name; frame; ext] ->
        not_neg_zero frame) ->
   q_index q 0 = p.
 Proof. exact FramePathProofs.single_file_roundtrip. Qed.
